@@ -24,7 +24,8 @@ class Cfg:
                  group=True, order=True, limit=True, limit_needs_total_order=True, distinct=True, division=True,
                  concat=True, case=True, cast=True, star=True, max_tables=3, qualifier_spelling=None,
                  exists=True, in_subselect=True, expr_depth=2, column_aliases=True, nulls_order=True,
-                 scalar_functions=True, cross_place_subselect=True, shadow_aliases=(), qualified_columns=False):
+                 scalar_functions=True, cross_place_subselect=True, shadow_aliases=(), qualified_columns=False,
+                 extra_places=None, order_by_source=False, subselect_multi=True):
         self.places = places or {}            # table -> qualifier (integration) or None
         self.tables = tables or sorted(SCHEMA)
         self.always_alias = always_alias
@@ -57,6 +58,9 @@ class Cfg:
         self.cross_place_subselect = cross_place_subselect
         self.shadow_aliases = list(shadow_aliases)   # names sometimes used as table alias (e.g. the integration name)
         self.qualified_columns = qualified_columns   # un-aliased tables: refer to columns as int1.t1.a sometimes
+        self.extra_places = extra_places or {}       # table -> [other integrations holding a table of the same name]
+        self.order_by_source = order_by_source       # ORDER BY may name qualified source columns (not only aliases)
+        self.subselect_multi = subselect_multi       # sub-selects in WHERE may have two FROM entries
 
 
 class Gen:
@@ -91,6 +95,10 @@ class Gen:
 
     def table_ref(self, t):
         q = self.cfg.places.get(t)
+        extra = self.cfg.extra_places.get(t)
+        if extra and self.chance(1, 2):
+            q = self.pick(extra)
+            self.tags.add('table:same-name-other-place')
         self.used_tables.append((q, t))
         if q is None:
             return t
@@ -209,6 +217,11 @@ class Gen:
                     kinds.append('exists')
                 kinds.append('scalarsub')
         kind = self.pick(kinds)
+        if kind == 'cmp' and self.cols(scope, 'int') and self.chance(1, 6):
+            # constant on the left: `15 < x.price`
+            op = self.pick(['=', '!=', '<', '<=', '>', '>='])
+            self.tags.add('cmp:const-first')
+            return f'({self.pick([0, 1, 2, 3])} {op} {self.pick(self.cols(scope, "int"))})'
         if kind == 'cmp':
             op = self.pick(['=', '!=', '<>', '<', '<=', '>', '>='])
             return f'({self.with_col(self.int_expr(scope, depth - 1), scope)} {op} {self.int_expr(scope, depth - 1)})'
@@ -267,15 +280,35 @@ class Gen:
         t = self.pick(self.sub_tables())
         al = self.new_alias('s')
         scope = [(al, SCHEMA[t])]
-        col = self.pick(self.cols(scope, 'int'))
+        second = ''
+        if self.cfg.subselect_multi and self.chance(1, 4):
+            # a second FROM entry; un-aliased when the config allows un-aliased tables (it then shadows an outer
+            # table of the same name)
+            t2 = self.pick(self.sub_tables())
+            self.tags.add('sub:two-tables')
+            shadow = [a for a, _ in outer if a in SCHEMA and a in self.sub_tables()]
+            if not self.cfg.always_alias and shadow and self.chance(2, 3):
+                # repeat, un-aliased, a table that is un-aliased in the enclosing query: the inner one shadows it
+                t2 = self.pick(shadow)
+                ref2, second = t2, f', {self.table_ref(t2)}'
+                self.tags.add('sub:unaliased-table')
+                self.tags.add('sub:shadows-outer-table')
+            elif not self.cfg.always_alias and self.chance(1, 2):
+                ref2, second = t2, f', {self.table_ref(t2)}'
+                self.tags.add('sub:unaliased-table')
+            else:
+                ref2 = self.new_alias('s')
+                second = f', {self.table_ref(t2)} AS {ref2}'
+            scope = scope + [(ref2, SCHEMA[t2])]
+        col = self.pick(self.cols(scope[:1], 'int'))
         where = ''
         if self.chance(2, 3):
             sc = scope + (outer if correlated and self.chance(1, 2) else [])
             if sc is not scope:
                 self.tags.add('sub:correlated')
             where = ' WHERE ' + self.bool_expr(sc, 1, allow_sub=False)
-        tgt = '*' if star and self.chance(1, 2) else col
-        return f'SELECT {tgt} FROM {self.table_ref(t)} AS {al}{where}'
+        tgt = '*' if star and self.chance(1, 2) and not second else col
+        return f'SELECT {tgt} FROM {self.table_ref(t)} AS {al}{second}{where}'
 
     def agg_subselect(self, outer):
         t = self.pick(self.sub_tables())
@@ -303,7 +336,7 @@ class Gen:
                 kind = 'cte'
             if kind == 'table':
                 t = self.pick(cfg.tables)
-                need_alias = cfg.always_alias or n > 1 or self.chance(1, 2)
+                need_alias = cfg.always_alias or self.chance(1, 2) or any(sc[0] == t for _, sc in items)
                 al = self.new_alias('x') if need_alias else None
                 txt = self.table_ref(t) + (f' AS {al}' if al and self.chance(3, 4) else (f' {al}' if al else ''))
                 ref = al or t
@@ -429,6 +462,12 @@ class Gen:
                 else:
                     targets.append(self.bool_expr(scope, 1, allow_sub=False))
                 out_types.append('int' if t == 'bool' else t)
+        src_order = None
+        if cfg.order_by_source and top and not grouped and types is None and self.chance(1, 4):
+            ic = self.pick(self.cols(scope, 'int'))
+            targets.append(ic)
+            out_types.append('int')
+            src_order = (len(targets) - 1, ic)
         # aliases: c0..cn (always for non-column targets, so that ORDER BY and outer scopes can name them)
         tt = []
         for k, t in enumerate(targets):
@@ -465,6 +504,16 @@ class Gen:
             if not total:
                 idx = [i for i in idx if self.chance(1, 2)] or [0]
             terms = []
+            if src_order is not None and not distinct:
+                # order by the qualified source column first (its value is also output as c<k>)
+                k, ic = src_order
+                dr = self.pick(['', ' DESC'])
+                terms.append(f'{ic}{dr}')
+                order_meta.append(k)
+                idx = [i for i in idx if i != k]
+                if self.chance(1, 2):
+                    idx = []            # order by that source column only
+                self.tags.add('order:source-column')
             for i in idx:
                 dr = self.pick(['', ' ASC', ' DESC'])
                 nl = ''
@@ -476,7 +525,7 @@ class Gen:
                 terms.append(f'c{i}{dr}{nl}')
                 order_meta.append(i)
             sql += ' ORDER BY ' + ', '.join(terms)
-            total_order = len(idx) == n
+            total_order = len(order_meta) == n
             if cfg.limit and (total_order or not cfg.limit_needs_total_order) and self.chance(1, 2):
                 has_limit = True
                 self.tags.add('limit')
@@ -548,7 +597,7 @@ def table_data(draw, tables=None, max_rows=4):
         rows = []
         for _ in range(n):
             row = []
-            for c, typ in SCHEMA[t]:
+            for c, typ in SCHEMA[t.split('.')[-1]]:     # a key may be 'int2.t1': table t1 held by integration int2
                 dom = INT_DOMAIN if typ == 'int' else TEXT_DOMAIN
                 row.append(dom[draw(st.integers(0, len(dom) - 1))])
             rows.append(row)
@@ -560,6 +609,9 @@ def engine_tables(data, places=None):
     """{(db, table): (columns, rows)} for vf.oracles.engine.connect"""
     out = {}
     for t, rows in data.items():
-        db = (places or {}).get(t)
+        if '.' in t:
+            db, t = t.split('.', 1)
+        else:
+            db = (places or {}).get(t)
         out[(db, t)] = ([c for c, _ in SCHEMA[t]], [tuple(r) for r in rows])
     return out
